@@ -37,6 +37,7 @@ type Universe struct {
 	anonNames   map[string]string
 	fresh       int
 	namedStruct map[string]string
+	boundedWF   int // >0: slice type invariants are expanded for the first K elements (counterexample search)
 }
 
 func NewUniverse() *Universe {
